@@ -105,8 +105,48 @@ class RowCoverage:
         return c == self.cursor
 
     # -- interpretation ---------------------------------------------------------
+    def _merge_cursor_copies(self, body):
+        """`t = c; while t < T: X[t] = v; t += 1; c = t`  is  `while c < T: X[c] = v; c += 1`  (a fill helper expanded at its call: the cursor is copied into
+        the helper's parameter and the result is bound back).  Without the write-back the same holds when neither c nor t is read afterwards."""
+        import copy as _copy
+        out, i = [], 0
+        while i < len(body):
+            s = body[i]
+            # other parameters of the expanded helper may be bound between the copy and the loop (`stop = <declared index>`)
+            between = []
+            j = i + 1
+            if isinstance(s, ast.Assign) and len(s.targets) == 1 and isinstance(s.targets[0], ast.Name) and isinstance(s.value, ast.Name):
+                while j < len(body) and isinstance(body[j], ast.Assign) and len(body[j].targets) == 1 and isinstance(body[j].targets[0], ast.Name) and body[j].targets[0].id not in (s.targets[0].id, s.value.id) \
+                        and not any(isinstance(x, ast.Name) and x.id in (s.targets[0].id, s.value.id) for x in ast.walk(body[j].value)) and not any(isinstance(x, ast.Call) for x in ast.walk(body[j].value)):
+                    between.append(body[j])
+                    j += 1
+            w = body[j] if j < len(body) else None
+            back = body[j + 1] if j + 1 < len(body) else None
+            if (isinstance(s, ast.Assign) and len(s.targets) == 1 and isinstance(s.targets[0], ast.Name) and isinstance(s.value, ast.Name) and isinstance(w, ast.While) and not w.orelse
+                    and any(isinstance(x, ast.Name) and x.id == s.targets[0].id for x in ast.walk(w.test))):
+                t, c = s.targets[0].id, s.value.id
+                has_back = isinstance(back, ast.Assign) and len(back.targets) == 1 and isinstance(back.targets[0], ast.Name) and back.targets[0].id == c and isinstance(back.value, ast.Name) and back.value.id == t
+                end = getattr(w, 'end_lineno', w.lineno)
+                later = [x for x in own_nodes(self.fn.node) if isinstance(x, ast.Name) and x.id in (t, c) and isinstance(x.ctx, ast.Load) and x.lineno > end and not (has_back and x is back.value)]
+                top = any(b is w for b in self.fn.node.body)
+                t_elsewhere = [x for x in own_nodes(self.fn.node) if isinstance(x, ast.Name) and x.id == t and not (s.lineno <= x.lineno <= end) and not (has_back and x is back.value)]
+                c_in_loop = any(isinstance(x, ast.Name) and x.id == c for x in ast.walk(w))
+                if not t_elsewhere and not c_in_loop and (has_back or (top and not later)):
+                    w2 = _copy.deepcopy(w)
+                    for x in ast.walk(w2):
+                        if isinstance(x, ast.Name) and x.id == t:
+                            x.id = c
+                    out += between
+                    out.append(w2)
+                    i = j + (2 if has_back else 1)
+                    continue
+            out.append(s)
+            i += 1
+        return out
+
     def run(self, body, st):
         from ..match import is_noise_stmt
+        body = self._merge_cursor_copies(body)
         i = 0
         while i < len(body):
             s = body[i]
@@ -264,6 +304,10 @@ class RowCoverage:
                 for h in getattr(s, 'handlers', []):
                     self.run(h.body, dict(st))
                 st = self.run(getattr(s, 'finalbody', []) or [], st)
+                continue
+            if isinstance(s, ast.Expr) and isinstance(s.value, ast.Call) and isinstance(s.value.func, ast.Attribute) and s.value.func.attr in ('append', 'extend', 'add') and isinstance(s.value.func.value, ast.Name) \
+                    and s.value.func.value.id != self.X and {x.id for a in s.value.args for x in ast.walk(a) if isinstance(x, ast.Name)} & (self.derived | {'structure'}):
+                self.derived.add(s.value.func.value.id)      # a list the entries of the structure are collected in
                 continue
             if isinstance(s, ast.Assign):
                 self._note_assign(s)
@@ -452,7 +496,15 @@ def matrix(repo, chk):
     # 6 seed dominates draws
     seeds = [c for c in calls(fn, dotted='numpy.random.seed')]
     gens = [c for c in own_nodes(fn.node) if _is_gen_call(c)]
-    ok_seed = len(seeds) == 1 and ast.unparse(seeds[0].args[0]) == 'seed' and all(seeds[0].lineno < g.lineno for g in gens) and not any(True for p in [par.get(par.get(seeds[0]))] if isinstance(p, (ast.If, ast.For)))
+    guard = par.get(par.get(seeds[0])) if seeds else None
+    # `if seed is not None: np.random.seed(seed)`: every seed that is given is applied (None, which names no seed, is the only value skipped)
+    none_guard = isinstance(guard, ast.If) and not guard.orelse and term_of(fn, guard.test, inline=False) in (E('seed is not None'), E('seed != None')) and isinstance(par.get(guard), ast.FunctionDef)
+    if seeds and isinstance(guard, ast.If) and term_of(fn, guard.test, inline=False) in (E('seed'), E('bool(seed)'), E('seed > 0'), E('seed != 0')) and ast.unparse(seeds[0].args[0]) == 'seed':
+        chk.bad('C19.6', 'R10', fn.site(guard), ast.unparse(guard.test)[:80], 'the generator is re-seeded only when the seed is truthy / positive: seed=0 is a seed like any other and is silently not applied, so two calls with '
+                'seed=0 continue whatever stream was left behind and produce different data')
+        ok_seed = True
+    else:
+        ok_seed = len(seeds) == 1 and ast.unparse(seeds[0].args[0]) == 'seed' and all(seeds[0].lineno < g.lineno for g in gens) and (none_guard or not isinstance(guard, (ast.If, ast.For)))
     chk.expect(ok_seed, 'C19.6', 'R10', fn.site(seeds[0]) if seeds else fn.site(), ast.unparse(seeds[0]) if seeds else 'np.random.seed(seed)', 'np.random.seed(seed) precedes every draw of generate_data, unconditionally', 'generate_data must call np.random.seed(seed) unconditionally before the first feature is drawn')
     # every draw of the generator comes from numpy's global generator (the one np.random.seed(seed) seeds): no other entropy source in the class
     other = [(f, c) for f in m.funcs.values() for c in calls(f) if (m.dotted(c.func) or '').startswith(('time.', 'os.urandom', 'secrets.', 'random.', 'uuid.', 'numpy.random.default_rng', 'numpy.random.RandomState', 'numpy.random.Generator'))]
@@ -817,7 +869,8 @@ def naive(repo, chk):
     thr = [n for n in own_nodes(fn.node) if isinstance(n, ast.Assign) and isinstance(n.targets[0], ast.Subscript) and isinstance(n.targets[0].value, ast.Name) and n.targets[0].value.id == T]
     got_thr = sorted((repr(term_of(fn, x.targets[0].slice, inline=False)), ast.unparse(x.value)) for x in thr)
     ok_thr = got_thr == sorted([(repr(E(f'{T} < 40')), '0'), (repr(E(f'{T} > 39')), '1')])
-    others = [n for n in own_nodes(fn.node) if isinstance(n, ast.Call) and (m.dotted(n.func) or '').startswith('numpy.random.') and n is not (sd[0].value if sd else None)]
+    others = [n for n in own_nodes(fn.node) if isinstance(n, ast.Call) and (m.dotted(n.func) or '').startswith('numpy.random.') and n is not (sd[0].value if sd else None)
+              and not ((m.dotted(n.func) or '') == 'numpy.random.seed' and sd and n.lineno < sd[0].lineno)]        # re-seeding before the sample is not a draw
     for o_ in others:
         chk.bad('C19.7b', 'R10', fn.site(o_), ast.unparse(o_)[:100], 'the naive generator draws further random numbers after the sample: the label is no longer a deterministic function of the needle column alone')
     # the thresholding decided over the value domain of the sample (integers 10..99): the masked stores are applied, in program order, to every
